@@ -127,6 +127,16 @@ func (e *Engine) VerifyFunc(fn *ssa.Function, con *Contract) (g *Gen, err error)
 				return g, fmt.Errorf("%s: call selector %q matches no call (contract target missing)", g.fnName, cs.Sel)
 			}
 		}
+		for _, sp := range con.Stores {
+			if g.callSelCount["store:"+sp.Sel] == 0 {
+				return g, fmt.Errorf("%s: store selector %q matches no store (contract target missing)", g.fnName, sp.Sel)
+			}
+		}
+		for _, sp := range con.Sends {
+			if g.callSelCount["send:"+sp.Sel] == 0 {
+				return g, fmt.Errorf("%s: send selector %q matches no send (contract target missing)", g.fnName, sp.Sel)
+			}
+		}
 		for i := range con.Loops {
 			if i >= len(g.loops) {
 				return g, fmt.Errorf("%s: contract names loop %d, function has %d loops (contract target missing)", g.fnName, i, len(g.loops))
@@ -512,6 +522,7 @@ func (g *Gen) execInstr(in ssa.Instruction) error {
 	case *ssa.BinOp:
 		g.execBinOp(x)
 	case *ssa.Store:
+		g.checkStoreSpecs(x)
 		p := g.val(x.Addr)
 		elem := x.Addr.Type().Underlying().(*types.Pointer).Elem()
 		if p.LV == nil && !isStruct(elem) {
@@ -584,6 +595,7 @@ func (g *Gen) execInstr(in ssa.Instruction) error {
 			g.assume(sx("<=", "0", g.vals[x].Tuple[0].T))
 		}
 	case *ssa.Send:
+		g.checkSendSpecs(x)
 		g.abstract("Send (channel operations are not modelled)", x.Pos())
 	case *ssa.Go:
 		g.abstract("Go (spawned goroutine's effects are not modelled): "+callName(&x.Call), x.Pos())
@@ -1211,6 +1223,89 @@ func (g *Gen) prescanLocals() {
 			g.localObjs[spec] = v
 			g.localTypes["$local:"+spec] = v.Type()
 			g.ghostSorts["$local:"+spec] = g.st.sortOf(v.Type())
+		}
+	}
+}
+
+func fieldNameOfAddr(v ssa.Value) (string, ssa.Value) {
+	if fa, ok := v.(*ssa.FieldAddr); ok {
+		st := fa.X.Type().Underlying().(*types.Pointer).Elem().Underlying().(*types.Struct)
+		return st.Field(fa.Field).Name(), fa.X
+	}
+	return "", nil
+}
+
+// checkStoreSpecs: //verif:store <field> requires <expr> -- evaluated in the state
+// before the store, with newval bound to the stored value.
+func (g *Gen) checkStoreSpecs(x *ssa.Store) {
+	fname, _ := fieldNameOfAddr(x.Addr)
+	if fname == "" {
+		return
+	}
+	if g.selectors["$stored:"+fname] {
+		g.cur.ghost["$stored:"+fname] = "true"
+		g.ghostSorts["$stored:"+fname] = "Bool"
+	}
+	if g.con == nil {
+		return
+	}
+	for _, sp := range g.con.Stores {
+		if sp.Sel != fname {
+			continue
+		}
+		g.callSelCount["store:"+sp.Sel]++
+		env := map[string]*Val{}
+		for k, v := range g.env {
+			env[k] = v
+		}
+		env["newval"] = g.val(x.Val)
+		sc := g.specCtx(env, g.cur, g.init)
+		t, err := sc.evalBool(sp.Cl.E)
+		if err != nil {
+			g.fail("store %s requires %s: %v", sp.Sel, sp.Cl.Src, err)
+		}
+		label := sp.Cl.Label
+		if label == "" {
+			label = sp.Sel
+		}
+		g.oblige("store", label, t, g.pos(x), "store to ."+sp.Sel+" requires "+sp.Cl.Src)
+	}
+}
+
+// checkSendSpecs: //verif:send <chanfield> requires <expr> (sentval bound).
+func (g *Gen) checkSendSpecs(x *ssa.Send) {
+	if g.con == nil {
+		return
+	}
+	fname := ""
+	if ld, ok := x.Chan.(*ssa.UnOp); ok {
+		fname, _ = fieldNameOfAddr(ld.X)
+	}
+	if fname == "" {
+		return
+	}
+	for _, sp := range g.con.Sends {
+		if sp.Sel != fname {
+			continue
+		}
+		g.callSelCount["send:"+sp.Sel]++
+		env := map[string]*Val{}
+		for k, v := range g.env {
+			env[k] = v
+		}
+		env["sentval"] = g.val(x.X)
+		sc := g.specCtx(env, g.cur, g.init)
+		t, err := sc.evalBool(sp.Cl.E)
+		if err != nil {
+			g.fail("send %s requires %s: %v", sp.Sel, sp.Cl.Src, err)
+		}
+		label := sp.Cl.Label
+		if label == "" {
+			label = sp.Sel
+		}
+		g.oblige("send", label, t, g.pos(x), "send on ."+sp.Sel+" requires "+sp.Cl.Src)
+		if g.selectors["$sent:"+fname] {
+			g.cur.ghost["$sent:"+fname] = sx("+", g.ghostTerm(g.cur, "$sent:"+fname), "1")
 		}
 	}
 }
